@@ -10,13 +10,23 @@ J gen_fault(const std::string& prop, uint64_t run_seed, const std::string& tier)
   knobs.set("be", kn.chance(1, 5) ? (uint64_t)BE_TAG : (uint64_t)BE_DIRECT); knobs.set("rm", kn.below(2)); knobs.set("maxreq", (uint64_t)1 << 20);
   knobs.set("kcap", tier == "thorough" ? 512 : 64);
   knobs.set("fill", kn.below(4) == 0 ? kn.range(1, 2) : 0);   // fresh memory: mostly 0xAA, sometimes all-zero or all-ones
+  knobs.set("fpmode", kn.below(4) == 0 ? 1 : 0);   // a quarter of the runs with FTZ/DAZ set in the thread's MXCSR
   plan.set("knobs", knobs);
   bool load_scn = prop == "C05" || g.chance(1, 4);
   if (load_scn) {
     GenProfile gp; gp.max_depth = 4; gp.max_kids = 4; gp.big_len_cap = 100;
     std::vector<uint8_t> by; unsigned n = (unsigned)g.range(1, 2);
+    if (g.chance(1, 400)) {
+      // one very wide flat container: thousands of allocator requests, so that refusing the first, the last (N-1) and a few in between
+      // reaches bookkeeping that only exists for large collections
+      uint64_t cnt = g.range(9000, 40000); unsigned shape = (unsigned)g.below(4);
+      if (shape == 0) ref_head(4, cnt, by); else if (shape == 1) ref_head(5, cnt, by); else by.push_back(shape == 2 ? 0x9f : 0xbf);
+      uint64_t members = (shape % 2) ? 2 * cnt : cnt; for (uint64_t i = 0; i < members; i++) by.push_back((uint8_t)(i % 24));
+      if (shape >= 2) by.push_back(0xff);
+      n = 0;
+    }
     for (unsigned i = 0; i < n; i++) ref_encode(gen_mv(g, gp), by);
-    if (g.chance(1, 4) && by.size() > 1) by.resize((size_t)g.range(1, by.size() - 1));        // a truncated input also allocates before it fails
+    if (n != 0 && g.chance(1, 4) && by.size() > 1) by.resize((size_t)g.range(1, by.size() - 1));        // a truncated input also allocates before it fails
     if (g.chance(1, 8) && !by.empty()) by[g.below(by.size())] ^= (uint8_t)(1u << g.below(8));
     plan.set("scn", "load"); plan.set("hex", to_hex(by));
   } else {
